@@ -15,15 +15,15 @@ theorem swapRoute_bank {s s2 : St} {sent recv : String} {amt amt2 : Nat} {f : De
   · cases h; exact ⟨rfl, rfl, rfl⟩
 
 /-- exact settlement of a successful swap on every account and denomination -/
-theorem swap_bank {s s' : St} {signer sent recv : String} {amt mn y : Nat} (hs : signer ≠ clpAcct)
-    (h : swap s signer sent recv amt mn = .ok (s', y)) :
+theorem swapCore_bank {s s' : St} {signer sent recv : String} {amt mn y : Nat} (hs : signer ≠ clpAcct)
+    (h : swapCore s signer sent recv amt mn = .ok (s', y)) :
     mn ≤ y ∧ amt ≤ s.bal signer sent ∧ s'.lps = s.lps ∧ s'.buckets = s.buckets ∧
     ∃ s1 : St, (∀ a d, s1.bal a d = if a = signer ∧ d = sent then s.bal a d - amt
                         else if a = clpAcct ∧ d = sent then s.bal a d + amt else s.bal a d) ∧
       y ≤ s1.bal clpAcct recv ∧
       (∀ a d, s'.bal a d = if a = clpAcct ∧ d = recv then s1.bal a d - y
                         else if a = signer ∧ d = recv then s1.bal a d + y else s1.bal a d) := by
-  unfold swap at h
+  unfold swapCore at h
   obtain ⟨_, _, h⟩ := bind_ok h
   obtain ⟨_, _, h⟩ := bind_ok h
   obtain ⟨_, _, h⟩ := bind_ok h
@@ -52,6 +52,18 @@ theorem swap_bank {s s' : St} {signer sent recv : String} {amt mn y : Nat} (hs :
     have : ∀ x z, (s2.setPool { p' with sym := if recv = rowan then sent else recv }).bal x z = s1.bal x z := by
       intro x z; simp [St.bal, bk2]
     simp only [this]
+
+/-- exact settlement of a successful swap on every account and denomination -/
+theorem swap_bank {s s' : St} {signer sent recv : String} {amt mn y : Nat} (hs : signer ≠ clpAcct)
+    (h : swap s signer sent recv amt mn = .ok (s', y)) :
+    mn ≤ y ∧ amt ≤ s.bal signer sent ∧ s'.lps = s.lps ∧ s'.buckets = s.buckets ∧
+    ∃ s1 : St, (∀ a d, s1.bal a d = if a = signer ∧ d = sent then s.bal a d - amt
+                        else if a = clpAcct ∧ d = sent then s.bal a d + amt else s.bal a d) ∧
+      y ≤ s1.bal clpAcct recv ∧
+      (∀ a d, s'.bal a d = if a = clpAcct ∧ d = recv then s1.bal a d - y
+                        else if a = signer ∧ d = recv then s1.bal a d + y else s1.bal a d) := by
+  obtain ⟨s4, c, hc, rfl⟩ := swap_ok h
+  exact swapCore_bank (s' := s4) hs hc
 
 /-- the output is strictly less than the pool's balance of the received token -/
 theorem swapOne_lt_balance {t : Bool} {x : Nat} {pool pool' : Pool} {r f : Dec} {y fee : Nat}
